@@ -257,8 +257,12 @@ static const char *lg_eq_elem(int f, const void *e, const lg_sel_t *s)
       if (!lg_streq(m->uri, ares_dns_rr_get_str(rr, ARES_RR_URI_TARGET))) {
         return "uri";
       }
-      if (m->ttl != (int)ares_dns_rr_get_ttl(rr)) {
-        return "ttl";
+      {
+        unsigned int t = ares_dns_rr_get_ttl(rr);
+        /* int field: a TTL with the top bit set comes out as the largest int or as 0 (RFC 2181), never negative */
+        if (t <= 0x7fffffffu ? m->ttl != (int)t : (m->ttl != 0x7fffffff && m->ttl != 0)) {
+          return "ttl";
+        }
       }
       return NULL;
     }
@@ -377,25 +381,35 @@ static void lg_cmp_strvec(const char *fn, const char *what, char *const *got, co
 
 static int lg_ttl_ok(int got, unsigned int own, const lg_proj_t *pj)
 {
-  /* min(own TTL, TTLs of the IN CNAMEs); TTLs with the top bit set have no defined int value, so
-   * both the signed and the unsigned reading of the minimum are accepted; if the CNAMEs do not
-   * form a chain, anything between the overall minimum and the record's own TTL is accepted. */
-  long long smin = (int)own;
-  unsigned  umin = own;
+  /* min(own TTL, TTLs of the IN CNAMEs) - test/ares-test-parse-a.cc "TTL is reduced to match CNAME's".  The legacy
+   * field is an int: a TTL with the top bit set cannot be reported as it is; it may come out as the largest int
+   * (a very long time) or as 0 (RFC 2181 section 8), never as a negative number, and it must not drag the TTLs of
+   * other records below their own values.  If the CNAMEs do not form a chain, anything between the overall
+   * minimum and the record's own TTL is accepted. */
+  long long cmin, zmin, cown, zown;
   size_t    i;
+  if (got < 0) {
+    return 0;
+  }
+  cown = own > 0x7fffffffu ? 0x7fffffff : (long long)own;
+  zown = own > 0x7fffffffu ? 0 : (long long)own;
+  cmin = cown;
+  zmin = zown;
   for (i = 0; i < pj->ncn; i++) {
-    unsigned t = ares_dns_rr_get_ttl(pj->cn[i]);
-    if ((int)t < smin) {
-      smin = (int)t;
+    unsigned  t = ares_dns_rr_get_ttl(pj->cn[i]);
+    long long c = t > 0x7fffffffu ? 0x7fffffff : (long long)t;
+    long long z = t > 0x7fffffffu ? 0 : (long long)t;
+    if (c < cmin) {
+      cmin = c;
     }
-    if (t < umin) {
-      umin = t;
+    if (z < zmin) {
+      zmin = z;
     }
   }
-  if (got == (int)smin || got == (int)umin) {
+  if (got == cmin || got == zmin) {
     return 1;
   }
-  if (!pj->chain_ok && got >= smin && got <= (int)own) {
+  if (!pj->chain_ok && got >= (cmin < zmin ? cmin : zmin) && got <= cown) {
     return 1;
   }
   return 0;
